@@ -180,8 +180,12 @@ del_vertices(G, [], V1, NG) :-
 del_vertices([], _, _, []).
 del_vertices([V-Edges|G], [V0|Vs], V1, NG) :-
     compare(Res, V, V0),
-    split_on_del_vertices(Res, V,Edges, [V0|Vs], NVs, V1, NG, NGr),
-    del_vertices(G, NVs, V1, NGr).
+    (   Res = (>)
+    ->  % V0 is not a vertex of the graph: V is still to be compared with Vs
+        del_vertices([V-Edges|G], Vs, V1, NG)
+    ;   split_on_del_vertices(Res, V,Edges, [V0|Vs], NVs, V1, NG, NGr),
+        del_vertices(G, NVs, V1, NGr)
+    ).
 
 del_remaining_edges_for_vertices([], _, []).
 del_remaining_edges_for_vertices([V0-Edges|G], V1, [V0-NEdges|NG]) :-
@@ -189,8 +193,6 @@ del_remaining_edges_for_vertices([V0-Edges|G], V1, [V0-NEdges|NG]) :-
     del_remaining_edges_for_vertices(G, V1, NG).
 
 split_on_del_vertices(<, V, Edges, Vs, Vs, V1, [V-NEdges|NG], NG) :-
-    ord_subtract(Edges, V1, NEdges).
-split_on_del_vertices(>, V, Edges, [_|Vs], Vs, V1, [V-NEdges|NG], NG) :-
     ord_subtract(Edges, V1, NEdges).
 split_on_del_vertices(=, _, _, [_|Vs], Vs, _, NG, NG).
 
